@@ -54,7 +54,8 @@ def harness_sources(prop):
 
 
 def engine_sources():
-    return [os.path.join(VERIF, "engine", "engine.cpp"), os.path.join(VERIF, "engine", "heaptrack.c")]
+    return [os.path.join(VERIF, "engine", "engine.cpp"), os.path.join(VERIF, "engine", "heaptrack.c"),
+            os.path.join(VERIF, "engine", "main.cpp"), os.path.join(VERIF, "engine", "fuzz_main.cpp")]
 
 
 def ensure_objects(props):
